@@ -111,7 +111,7 @@ Definition op_label (o : op) : string :=
   | OClaim _ _ _ => "claim" | OPause _ => "pause" | OUnpause _ => "unpause" | OActivate _ => "activate"
   | OVotes _ => "downtime" | OEvidence _ => "evidence" | OUnjail _ => "unjail" | OReset => "reset"
   | OUpPause _ => "upgrade-pause" | ONewBlock _ => "newblock" | OEndBlock => "endblock"
-  | ORotate _ _ => "rotate" | OGenesis _ => "genesis-import" | OSetProp _ _ _ => "set-property"
+  | ORotate _ _ => "rotate" | OGenesis _ => "genesis-import" | OSetProp _ _ _ => "set-property" | OUpgrade => "upgrade"
   end.
 
 Definition vals_with_key (vals : list (Z * vrec)) (k : Z) : list Z :=
@@ -218,7 +218,7 @@ Fixpoint c05_clauses (cfg : config) (c : chk) (s : state) (l : list (op * obs)) 
   | (o, b) :: r =>
     let s' := observe s o b in
     let here := match o with
-                | OVotes _ | OEvidence _ | OUpPause _ =>
+                | OVotes _ | OEvidence _ | OUpPause _ | OUpgrade =>
                     (* a BeginBlocker that panics stops the chain as surely as an unusable update *)
                     match o_res b with RPanic => ["blocker-panic:" ++ op_label o] | _ => [] end
                 | OPause _ =>
